@@ -38,3 +38,6 @@ def rules(ctx, report, facts, config, pfx="C01"):
 def run(ctx, report):
     for config in ctx.configs:
         rules(ctx, report, ctx.facts(config), config)
+    if ctx.tier == "thorough":
+        from .. import positives as POS
+        POS.engine(ctx, report, "C01.ENGINE")
